@@ -72,6 +72,15 @@ def make_value(ty: str):
 
 # ------------------------------------------------------------------ implementation side
 _et_counter = [0]
+DEFAULT_NAMES = [0, 0, 1]          # cases without a "names" field (corpus, exhaustive): types 0 and 1 share their name
+NAME_PATTERNS = [[0, 0, 1], [0, 1, 1], [0, 1, 0], [0, 0, 0], [0, 1, 2]]
+_site_cache = {}
+
+
+def _sites_of(pubsub):
+    if id(pubsub) not in _site_cache:
+        _site_cache[id(pubsub)] = ET.make_sites(pubsub)
+    return _site_cache[id(pubsub)]
 
 
 class Ctx:
@@ -80,11 +89,16 @@ class Ctx:
     def __init__(self, case, pubsub):
         self.ps = pubsub
         self.case = case
+        # Event types of one case: type i is defined at site i (c08_et.make_sites: two functions, a class body,
+        # a lambda); case["names"][i] is its name group - types of one group carry the SAME name (legal: the
+        # defining class differs) and must still be different event types to every producer.
         self.ets = []
-        for md in case["env"]:
-            _et_counter[0] += 1
+        _et_counter[0] += 1
+        groups = case.get("names") or DEFAULT_NAMES[:len(case["env"])]
+        sites = _sites_of(pubsub)
+        for i, md in enumerate(case["env"]):
             decl = None if md is None else {KEYS[k]: PYCLASS[t] for k, t in md}
-            self.ets.append(pubsub.EventType(f"C08_T{_et_counter[0]}", decl))
+            self.ets.append(sites[i % len(sites)](f"C08_T{_et_counter[0]}_g{groups[i]}", decl))
         self.producers = [pubsub.EventProducer() for _ in range(N_PROD)]
         ctx = self
 
@@ -618,7 +632,7 @@ class Gen:
             ops.append(["has", p])
             for et in range(N_ET):
                 ops.append(["fire", p, et, self.content(env[et], 0.0), True])
-        return {"env": env, "scripts": scripts, "ops": ops}
+        return {"env": env, "scripts": scripts, "ops": ops, "names": list(r.choice(NAME_PATTERNS))}
 
 
 def exhaustive_cases(max_len: int):
@@ -1027,10 +1041,12 @@ def main(tier: str) -> int:
             else:
                 note = ("fails only after earlier cases ran in the same interpreter (state leaks between EventProducer "
                         "instances / cases); on a fresh interpreter this input alone passes")
+        small.setdefault("names", DEFAULT_NAMES[:len(small["env"])])     # say in the replay which types share a name
         tr, f, _ = run_impl(small)
         what = ([w for s_, w in f if s_ == sig] or [findings[0][1]])[0]
         rep = {"case": small, "impl_observations": tr,
-               "how": "harness/c08.py run_impl(case): env = metadata per event type, scripts[l] = programs listener l "
+               "how": "harness/c08.py run_impl(case): env = metadata per event type (type i is defined at site i; names[i] = its "
+                      "name group: types of one group have the same name, declared in different classes), scripts[l] = programs listener l "
                       "performs on its successive notifications, ops = outermost calls; every op names the producer "
                       "(second field) it is called on; ./check C08 --replay <this file> re-runs it"}
         if note:
